@@ -320,10 +320,32 @@ def r1_links(program, folder, rep):
         if not isinstance(loop, ast.While) or not isinstance(
                 loop.test, ast.Compare):
             raise AnalysisError("%s: loop shape" % name)
-        remv = chain(loop.test.left)
-        R = Poly.atom(remv)
+        # the number of bytes still to transfer, from the loop condition:
+        # ``R > 0``  ->  R ;  ``done < total``  ->  total - done
+        t_ = loop.test
+        if len(t_.ops) != 1:
+            raise AnalysisError("%s: loop shape" % name)
+        l_, r_ = t_.left, t_.comparators[0]
+        if isinstance(t_.ops[0], ast.Lt):
+            l_, r_ = r_, l_
+        elif not isinstance(t_.ops[0], ast.Gt):
+            raise AnalysisError("%s: loop shape" % name)
+        # now the condition reads  l_ > r_
+        if isinstance(r_, ast.Constant) and r_.value == 0:
+            rem_expr = l_
+        else:
+            rem_expr = parse_expr("%s - (%s)" % (unparse(l_), unparse(r_)))
         sdl = Poly.atom("self.scp_data_length")
-        it = Interp(fn, entry_cons=[le(4, sdl), le(0, R)],
+        ent = [le(4, sdl)]
+        for p_ in formals(fn):
+            if any(isinstance(x, ast.Name) and x.id == p_
+                   for x in ast.walk(rem_expr)):
+                ent.append(le(0, Poly.atom(p_)))
+        it0 = Interp(fn, entry_cons=ent, consts=consts,
+                     pure_self_methods=("_send_scp",))
+        hd = it0.cfg.loop_head[id(loop)]
+        R = it0.sym(rem_expr, hd)
+        it = Interp(fn, entry_cons=ent,
                     candidates=[le(0, R)], consts=consts,
                     pure_self_methods=("_send_scp",))
         rep.note("%s: _send_scp is treated as not changing "
@@ -332,20 +354,25 @@ def r1_links(program, folder, rep):
         if kind == "write":
             # data = src[cur : cur + chunk]
             d = kw.get("data")
-            dd = fl.reaching(chain(d), n) if d is not None else []
+            dv_ = resolve_tmp(fl, d, n) if d is not None else None
             okd = False
-            if len(dd) == 1 and isinstance(dd[0].value, ast.Subscript) and \
-                    isinstance(dd[0].value.slice, ast.Slice) and \
-                    dd[0].value.slice.lower is not None:
-                s_ = dd[0].value
-                lo = fl.sym(s_.slice.lower, dd[0].node)
-                hi = fl.sym(s_.slice.upper, dd[0].node)
-                okd = hi - lo == fl.sym(a2, n)
+            if isinstance(dv_, ast.Subscript) and \
+                    isinstance(dv_.slice, ast.Slice) and \
+                    dv_.slice.lower is not None and \
+                    dv_.slice.upper is not None:
+                s_ = dv_
+                dn_ = fl.cfg.node_containing(s_) if s_ is not d and any(
+                    x.ast is not None and any(y is s_ for y in ast.walk(
+                        x.ast)) for x in fl.cfg.nodes) else n
+                lo = fl.sym(s_.slice.lower, dn_)
+                hi = fl.sym(s_.slice.upper, dn_)
+                okd = hi - lo == fl.sym(a2, n) and \
+                    chain(s_.value) == formals(fn)[2]
                 cursors.append(s_.slice.lower)
             rep.check(okd, "C07-R1", inst, "each link write carries "
                       "data[cur:cur+chunk] for the chunk length it "
                       "announces", construct="link write slice", node=call)
-        tile(rep, "C07-R1", inst, fn, it, call, a2, parse_expr(remv),
+        tile(rep, "C07-R1", inst, fn, it, call, a2, rem_expr,
              cursors, upper=parse_expr("self.scp_data_length"),
              consts=consts, what="link " + kind)
         if kind == "read":
@@ -373,6 +400,27 @@ def r1_links(program, folder, rep):
                             v.slice.lower is not None and \
                             fl.sym(v.slice.lower, n2) == fl.sym(tgt[1], n1) \
                             == fl.sym(a2, n) and fl.cfg.dominates(n1, n2)
+            if not okw:
+                # or: the reply is stored at result[cur:cur + chunk] with a
+                # position that advances by the chunk
+                head_, backs_ = _backedge_preds(fl.cfg, loop)
+                for s_ in ast.walk(loop):
+                    if isinstance(s_, ast.Assign) and isinstance(
+                            s_.targets[0], ast.Subscript) and isinstance(
+                            s_.targets[0].slice, ast.Slice):
+                        t = s_.targets[0]
+                        if t.slice.lower is None or t.slice.upper is None:
+                            continue
+                        n1 = fl.cfg.node_of(s_)
+                        lo = fl.sym(t.slice.lower, n1)
+                        hi = fl.sym(t.slice.upper, n1)
+                        okw = hi - lo == fl.sym(a2, n) and bool(backs_) and \
+                            all(fl.sym_after(t.slice.lower, b_) == lo +
+                                fl.sym(a2, n) for b_ in backs_)
+                        pre = [p_ for p_ in head_.pred
+                               if not fl.cfg.reaches(head_, p_)]
+                        okw = okw and all(fl.sym_after(t.slice.lower, p_) ==
+                                          Poly.const(0) for p_ in pre)
             rep.check(okw, "C07-R1", inst, "each reply fills the next chunk-"
                       "sized window of the result, which then advances by "
                       "that chunk", construct="link read window", node=loop)
